@@ -279,6 +279,8 @@ pub fn run(args: &Args) -> i32 {
     // Histories with one aborted build (crash decoration at every crash point) over the smallest programs: what was
     // built before on the instance includes builds that did not finish.
     groups.push(Group { enums: vec![s(2, 2, if quick { 2 } else { 3 })], depth: if quick { 4 } else { 5 }, shapes: true, gen_consumer_only: false, crashes: 1, inject: false, max_roots: None, faulty: false });
+    // one resource, one statement more, one step deeper: abort, change, rebuild, change back, rebuild
+    groups.push(Group { enums: vec![s(2, 1, if quick { 3 } else { 4 })], depth: if quick { 5 } else { 6 }, shapes: false, gen_consumer_only: false, crashes: 1, inject: false, max_roots: Some(1), faulty: false });
   }
   // Experiment overrides (not used by the registered commands).
   if let Ok(e) = std::env::var("VERIF_GROUPS") {
